@@ -385,6 +385,11 @@ Proof.
   - constructor; auto. now apply IH.
 Qed.
 
+Lemma keys_ok_remove_all {A} ks : forall (m : list (key * A)), keys_ok m -> keys_ok (remove_all ks m).
+Proof.
+  unfold remove_all. induction ks as [|k ks IH]; simpl; auto. intros m H. apply IH. now apply keys_ok_remove.
+Qed.
+
 Lemma keys_ok_apply_writes src : forall dst, keys_ok src -> keys_ok dst -> keys_ok (apply_writes src dst).
 Proof.
   unfold apply_writes. induction src as [|[k ov] t IH]; simpl; auto.
@@ -646,7 +651,7 @@ Definition op_ok (o : op) : Prop :=
 Lemma step_wf s o : wf s -> op_ok o -> wf (step s o).
 Proof.
   intros Hs Ho. pose proof (wf_pair_of s Hs) as (Hl & Sb & Kb). simpl in *.
-  unfold step. destruct o as [k v|k|p|i| |]; destruct (layers s) as [|L t] eqn:El; auto.
+  unfold step. destruct o as [k v|k|p|i| | |r g|r g]; destruct (layers s) as [|L t] eqn:El; auto.
   - apply wf_layers_inv in Hl as (SL & KL & Ht). apply wf_set_stack. repeat split; simpl; auto.
     constructor; simpl; auto using sorted_insert, keys_ok_insert.
   - apply wf_layers_inv in Hl as (SL & KL & Ht). apply wf_set_stack. repeat split; simpl; auto.
@@ -664,11 +669,15 @@ Proof.
     constructor; simpl; auto using sorted_copy_into, keys_ok_copy_into.
   - destruct t as [|L2 t2]; auto. apply wf_layers_inv in Hl as (SL & KL & Ht).
     apply wf_set_stack. repeat split; simpl; auto.
+  - apply wf_set_stack. repeat split; simpl; auto; unfold base_seekgc; auto using sorted_remove_all, keys_ok_remove_all.
+  - apply wf_set_stack. repeat split; simpl; auto; unfold base_seekgc; auto using sorted_remove_all, keys_ok_remove_all.
+  - apply wf_layers_inv in Hl as (SL & KL & Ht). apply wf_set_stack. repeat split; simpl; auto.
+    constructor; simpl; auto. unfold layer_seekgc. split; [now apply sorted_remove_all|now apply keys_ok_remove_all].
 Qed.
 
 Lemma step_nonempty s o : layers s <> [] -> layers (step s o) <> [].
 Proof.
-  intros Hne. unfold step. destruct o as [k v|k|p|i| |]; destruct (layers s) as [|L t] eqn:El;
+  intros Hne. unfold step. destruct o as [k v|k|p|i| | |r g|r g]; destruct (layers s) as [|L t] eqn:El;
     try congruence; simpl; try discriminate.
   - destruct ((i =? 0) && lpriv L).
     + destruct t as [|L2 t2]; simpl; [rewrite El; discriminate|discriminate].
